@@ -29,6 +29,8 @@ type decIn struct {
 	// the whole input is pending at once: a Read gets as many bytes as it asks for (the chunks only say what a reader
 	// with a 256-byte buffer sees)
 	Greedy bool `json:"greedy,omitempty"`
+	// the last chunk is returned TOGETHER with the error (io.Reader allows n > 0 with err != nil)
+	ErrWithLast bool `json:"err_with_last,omitempty"`
 }
 
 type decOut struct {
@@ -54,10 +56,11 @@ func toBytes(l []int) []byte {
 var errScripted = errors.New("scripted read failure")
 
 type scriptReader struct {
-	greedy bool
-	chunks [][]byte
-	final  error
-	reads  int
+	errWithLast bool
+	greedy      bool
+	chunks      [][]byte
+	final       error
+	reads       int
 }
 
 func (s *scriptReader) Read(p []byte) (int, error) {
@@ -83,6 +86,9 @@ func (s *scriptReader) Read(p []byte) (int, error) {
 		panic("scripted chunk larger than the read buffer")
 	}
 	s.chunks = s.chunks[1:]
+	if s.errWithLast && len(s.chunks) == 0 {
+		return copy(p, c), s.final
+	}
 	return copy(p, c), nil
 }
 
@@ -179,7 +185,7 @@ func runRead(in decIn) decOut {
 		out.Msgs = []string{}
 		return out
 	}
-	sr := &scriptReader{final: io.EOF, greedy: in.Greedy}
+	sr := &scriptReader{final: io.EOF, greedy: in.Greedy, errWithLast: in.ErrWithLast}
 	if in.Err == "fail" {
 		sr.final = errScripted
 	}
